@@ -120,7 +120,7 @@ def main():
             suite = sh("cd %s && GOFLAGS=-mod=mod GOPROXY=off go test -vet=off -count=1 ./... 2>&1 | grep -c '^ok'" % REPO)
             suite_ok = suite.stdout.strip() == "2"
             t0 = time.time()
-            r = sh("cd %s && ./verif check %s quick" % (ROOT, pid))
+            r = sh("cd %s && VERIF_EVIDENCE_DIR=/verif/.run/evidence-mutated ./verif check %s quick" % (ROOT, pid))
             killed = r.returncode == 1 and "VIOLATION property=%s" % pid in r.stdout
             results.append((pid, name, "%s (rc=%d, %.0fs)%s" % ("KILLED" if killed else "SURVIVED", r.returncode, time.time() - t0, "" if suite_ok else " [note: the repo's own suite also fails]")))
             print(results[-1], flush=True)
